@@ -81,6 +81,7 @@ class History:
         self.drained = False
         self.after_cut = []   # sizes of chunks handed out after the abort
         self.oversized = []   # read(n) that returned more than n bytes
+        self.after_stop = None  # what next() did on an exhausted wrapper
 
 
 def instrument(insp, name, faults, hist):
@@ -219,9 +220,15 @@ def _run_session(data, case, faults, src_fault):
     for name, insp in imgsim.wrapper_inspectors(w).items():
         instrument(insp, name, faults, hist)
     op = 0
+    mix = case.get('mixed_calls')
     while True:
         try:
-            if pers == 'file':
+            if mix and pers == 'iter' and mix[op % len(mix)] and \
+                    op < len(plan) and plan[op] > 0:
+                # the same wrapper consumed through read() now and then
+                # (the source offers both protocols)
+                chunk = w.read(plan[op])
+            elif pers == 'file':
                 req = plan[op] if op < len(plan) else 4096
                 # short reads: the reader asks for more than the source
                 # returns (pipes, sockets); legal for any file-like source
@@ -268,6 +275,16 @@ def _run_session(data, case, faults, src_fault):
                     chunk = next(w)
                 except StopIteration:
                     hist.ended = 'stop'
+                    if case.get('next_after_stop'):
+                        # asking an exhausted iterator again: StopIteration
+                        # again, nothing else
+                        try:
+                            next(w)
+                            hist.after_stop = 'returned a chunk'
+                        except StopIteration:
+                            pass
+                        except Exception as e2:
+                            hist.after_stop = 'raised %s' % type(e2).__name__
                     break
         except core.StepCapExceeded:
             raise
@@ -405,6 +422,8 @@ def judge(case, hist, src, w, close_exc, viol):
     if src.raised is not None and surf is not None and \
             surf[1] is src.raised and hist.got != delivered:
         viol('bytes_before_source_error_lost')
+    if hist.after_stop:
+        viol('next_after_stopiteration', what=hist.after_stop)
     if hist.oversized:
         viol('read_returned_more_than_requested', op=hist.oversized[0][0],
              requested=hist.oversized[0][1], returned=hist.oversized[0][2])
@@ -562,6 +581,9 @@ class C06(Check):
                 'drain': crng.choice((0, 0, 1, 3)),
                 'readinto': crng.random() < 0.5,
                 'forloop': pers == 'iter' and crng.random() < 0.25,
+                'next_after_stop': pers == 'iter' and crng.random() < 0.3,
+                'mixed_calls': [crng.random() < 0.4 for _ in range(7)]
+                if pers == 'iter' and crng.random() < 0.15 else None,
                 'chunk_kind': core.weighted(crng, [(None, 6), ('bytearray', 1),
                                                    ('memoryview', 1)]),
                 'no_close': crng.random() < 0.1,
@@ -698,7 +720,8 @@ class C06(Check):
                 case.get('drain'), bool(case.get('readinto')),
                 bool(case.get('presession')), case.get('chunk_kind'),
                 bool(case.get('no_close')), case.get('final_read'),
-                bool(case.get('forloop')),
+                bool(case.get('forloop')), bool(case.get('next_after_stop')),
+                case.get('mixed_calls'),
                 len(hist.got), src.reads,
                 None if hist.surfaced is None else
                 (hist.surfaced[0], type(hist.surfaced[1]).__name__),
@@ -754,7 +777,8 @@ class C06(Check):
             c['drain'] = 0
             yield c
         for key in ('presession', 'readinto', 'chunk_kind', 'no_close',
-                    'final_read', 'forloop'):
+                    'final_read', 'forloop', 'next_after_stop',
+                    'mixed_calls'):
             if case.get(key):
                 c = copy.deepcopy(case)
                 c[key] = None
